@@ -41,6 +41,8 @@ _REAL = {
     "thread_start": threading.Thread.start, "mmap": _mmap_mod.mmap, "scandir": os.scandir,
 }
 NAME_MAX = 255
+DEV_STD = {"/dev/stdin": 0, "/dev/fd/0": 0, "/proc/self/fd/0": 0,
+           "/dev/stdout": 1, "/dev/fd/1": 1, "/proc/self/fd/1": 1}
 SLEEP_BUDGET = 600.0     # simulated seconds a tool may spend blocked before it counts as hung
 WALL_BACKSTOP = 45       # real seconds; the slowest legitimate run takes about 1 s unloaded
 FAKE_FD_BASE = 1_000_000   # never a valid real descriptor: a stray real syscall gets EBADF
@@ -915,6 +917,12 @@ class World:
         if isinstance(path, int):
             return self._os_fstat(path)
         try:
+            dev = DEV_STD.get(posixpath.normpath(SimFS.norm(path)))
+        except TypeError:
+            dev = None
+        if dev is not None:
+            return self._os_fstat(dev)
+        try:
             vp = self._vpath(path)
         except Exception:
             vp = None
@@ -1058,6 +1066,21 @@ class World:
     def _open(self, file, mode="r", *a, **kw):
         if isinstance(file, int) and not isinstance(file, bool):
             return self._open_fd(file, mode, *a, **kw)
+        try:
+            dev = DEV_STD.get(posixpath.normpath(SimFS.norm(file)))
+        except TypeError:
+            dev = None
+        if dev is not None:
+            # /dev/stdin, /dev/stdout, /dev/fd/N name the process's own standard streams
+            f = self._open_fd(dev, mode, *a, **{k: v for k, v in kw.items() if k != "opener"})
+            try:
+                f.name = file
+            except Exception:
+                pass
+            if dev == 0 and "b" in mode and not set(mode) & set("wax+"):
+                tr = TracedReader(f, "<stdin>", self.stdin_buf._dmg)
+                return tr
+            return f
         writing = bool(set(mode) & set("wax+"))
         opener = kw.get("opener")
         if opener is None and len(a) >= 6:
@@ -1092,6 +1115,12 @@ class World:
         return self.fs.open(file, mode, *a, vpath=vp, **kw)
 
     def _remove(self, path, *a, **kw):
+        try:
+            if DEV_STD.get(posixpath.normpath(SimFS.norm(path))) is not None:
+                # the simulated process is an ordinary user: it may not unlink entries of /dev
+                raise PermissionError(13, "Permission denied", path)
+        except TypeError:
+            pass
         vp = self._vpath(path)
         if vp is None:
             real = posixpath.normpath(SimFS.norm(path))
@@ -1105,6 +1134,8 @@ class World:
         return self.fs.remove(path, vpath=vp)
 
     def _getsize(self, path):
+        if DEV_STD.get(posixpath.normpath(SimFS.norm(path))) is not None:
+            return self._os_fstat(DEV_STD[posixpath.normpath(SimFS.norm(path))]).st_size
         vp = self._vpath(path)
         if vp is None:
             return _REAL["getsize"](path)
